@@ -80,6 +80,7 @@ func (tc *TarsClient) Send(req []byte) error {
 	if err := tc.ReConnect(); err != nil {
 		return err
 	}
+	verifClientYield("Send.reconnected", tc, nil)
 
 	// avoid full sendQueue that cause sending block
 	var timerC <-chan struct{}
@@ -156,6 +157,7 @@ func (c *connection) send(conn net.Conn, connDone chan bool) {
 	t := time.NewTicker(time.Second)
 	defer t.Stop()
 	for {
+		verifClientYield("send.top", c.client, conn)
 		select {
 		case <-connDone: // connection closed
 			return
@@ -165,6 +167,7 @@ func (c *connection) send(conn net.Conn, connDone chan bool) {
 		select {
 		case m = <-c.client.sendFailQueue: // Send failure queue messages first
 		default:
+			verifClientYield("send.inner", c.client, conn)
 			select {
 			case m = <-c.client.sendQueue: // Fetch jobs
 			case <-t.C:
@@ -179,6 +182,7 @@ func (c *connection) send(conn net.Conn, connDone chan bool) {
 				continue
 			}
 		}
+		verifClientYield("send.got", c.client, conn)
 		atomic.AddInt32(&c.invokeNum, 1)
 		if c.client.config.WriteTimeout != 0 {
 			if err := conn.SetWriteDeadline(time.Now().Add(c.client.config.WriteTimeout)); err != nil {
@@ -227,6 +231,7 @@ func (c *connection) recv(conn net.Conn, connDone chan bool) {
 			}
 			if _, ok := err.(*net.OpError); ok {
 				TLOG.Errorf("net.OpError: %v, error: %v", conn.RemoteAddr(), err)
+				verifClientYield("recv.closing", c.client, conn)
 				c.close(conn)
 				return // connection is closed
 			}
@@ -235,6 +240,7 @@ func (c *connection) recv(conn net.Conn, connDone chan bool) {
 			} else {
 				TLOG.Errorf("read package error: %v", err)
 			}
+			verifClientYield("recv.closing", c.client, conn)
 			c.close(conn)
 			return
 		}
